@@ -12,7 +12,7 @@ selectors as well.  Obligation on every feasible path: the call returns
 counterexample, reported with the raising function.
 
 Part 'default-strategy': the full local x remote script product under the
-default strategy.  Part 'strategy-product': 21 conflict-prone script pairs
+default strategy.  Part 'strategy-product': 30 conflict-prone script pairs
 under all 4 x 5 x 7 x 2 CLI combinations plus 'mergetool', x 3 back ends.
 Non-trivial = at least one decision.
 """
@@ -33,8 +33,8 @@ def main(prop=PROP, doc=__doc__, goals=GOALS):
     kn = tuple(sorted(known))
     chk = common.Check(prop, doc)
     sh = F.default_shards(t, (prop,), kn, tools=("git",))
-    sh += F.with_tool(F.default_shards(t, (prop,), kn, tools=("git",)), "builtin", only=("act-git-codeA", "act-git-md", "pair-"))
-    sh += F.with_tool(F.default_shards(t, (prop,), kn, tools=("git",)), "diff3", only=("act-git-codeA", "act-git-md"))
+    sh += F.with_tool(F.default_shards(t, (prop,), kn, tools=("git",)), "builtin", only=("act-git-codeA", "act-git-md", "pair-", "scn-long", "scn-lines", "scn-unicode"))
+    sh += F.with_tool(F.default_shards(t, (prop,), kn, tools=("git",)), "diff3", only=("act-git-codeA", "act-git-md", "scn-long", "scn-lines"))
     r = runner.explore("harness.fam_nbmerge", sh, nproc=common.nproc(),
                        budget_s=400 if t == "quick" else 3000)
     chk.add("default-strategy", r)
